@@ -34,6 +34,8 @@ def uf(name, *xs):
                 r = f(float(xs[0]))
                 fr = Fraction(r).limit_denominator(10 ** 15)
                 return fr
+            if name == 'pow' and len(xs) == 2 and xs[0] > 0:
+                return Fraction(float(xs[0]) ** float(xs[1])).limit_denominator(10 ** 15)
         except (ValueError, OverflowError):
             return NAN
     key = (name, len(xs))
